@@ -8,9 +8,9 @@ driver (property C02):
          frame = `command:length:session:status:context:options:payload:sent`  (payload `~` when `.length` is 0:
          the code leaves `.input` absent; sent = cumulative `source.sent` after the frame)
 
-  `srv <script> <chunk,chunk,…|->`        a connection with a scripted request processor
-      script = two letters per frame, `r|n` (reply / none) then `c|s` (continue / stop), `-` = empty
-      -> `acted=<n> replies=<i,i,…|-> closed=<0|1> end=<clean|abort:<pending>|stopped>`
+  `srv <script> <chunk,chunk,…|-> [<script> <chunks> …]`   connections with a scripted request processor
+      script = two letters per frame, `r|n|x` (reply / none / raised) then `c|s` (continue / stop), `-` = empty
+      -> `acted=<n> replies=<i,i,…|-> closed=<n> end=<clean|abort:<pending>|stopped>` joined by ` | `
 -/
 namespace Cpppo.Driver.Framing
 open Cpppo.Wire Cpppo.Framing
@@ -29,25 +29,49 @@ def showEnd : Ending → String
 def parseChunks (s : String) : Option (List (List Nat)) :=
   (splitNonEmpty s ',').mapM bytesOfHex
 
-/-- scripted processor: state = (frames acted upon, clean-close calls) -/
-def parseScript : List Char → Option (List (Bool × Bool))
+/-- scripted processor: state = (frames acted upon, close calls).  Per frame a reply letter
+`r` (reply sent) | `n` (none) | `x` (the processor raised: no reply, the cleanup call with empty data is made,
+the session ends) and a continuation letter `c` | `s`. -/
+inductive Beh where
+  | reply | silent | raised
+deriving DecidableEq
+
+def parseScript : List Char → Option (List (Beh × Bool))
   | [] => some []
   | [_] => none
   | a :: b :: rest => do
-    let r ← if a = 'r' then some true else if a = 'n' then some false else none
+    let r ← if a = 'r' then some Beh.reply else if a = 'n' then some Beh.silent
+            else if a = 'x' then some Beh.raised else none
     let c ← if b = 'c' then some true else if b = 's' then some false else none
     let t ← parseScript rest
     pure ((r, c) :: t)
 
-def scriptStep (script : List (Bool × Bool)) (s : Nat × Nat) (_ : RawFrame) : (Nat × Nat) × Option Nat × Bool :=
+def scriptStep (script : List (Beh × Bool)) (s : Nat × Nat) (_ : RawFrame) : (Nat × Nat) × Option Nat × Bool :=
   match script[s.1]? with
-  | some (r, c) => ((s.1 + 1, s.2), if r then some s.1 else none, c)
+  | some (Beh.reply, c) => ((s.1 + 1, s.2), some s.1, c)
+  | some (Beh.silent, c) => ((s.1 + 1, s.2), none, c)
+  | some (Beh.raised, _) => ((s.1 + 1, s.2 + 1), none, false)
   | none => ((s.1 + 1, s.2), none, false)
 
 def scriptClose (s : Nat × Nat) : Nat × Nat := (s.1, s.2 + 1)
 
 def showNats (l : List Nat) : String :=
   if l.isEmpty then "-" else ",".intercalate (l.map toString)
+
+def serveOne (script cs : String) : Option String := do
+  let script ← if script = "-" then some [] else parseScript script.toList
+  let cs ← parseChunks cs
+  let (s, replies, e) := serveChunks (scriptStep script) scriptClose (0, 0) cs
+  pure s!"acted={s.1} replies={showNats replies} closed={s.2} end={showEnd e}"
+
+/-- one or more connections, each `<script> <chunks>`; answers joined by ` | ` -/
+def serveAll : List String → Option String
+  | [script, cs] => serveOne script cs
+  | script :: cs :: rest => do
+    let a ← serveOne script cs
+    let b ← serveAll rest
+    pure (a ++ " | " ++ b)
+  | _ => none
 
 def handle : List String → Option String
   | ["frm", cs] => do
@@ -57,11 +81,7 @@ def handle : List String → Option String
     let fs := (r.1.zip sents).map fun (f, n) => showFrame f n
     let e := if r.2.isEmpty then Ending.clean else Ending.aborted r.2.length
     pure ((if fs.isEmpty then "-" else ";".intercalate fs) ++ " " ++ showEnd e)
-  | ["srv", script, cs] => do
-    let script ← if script = "-" then some [] else parseScript script.toList
-    let cs ← parseChunks cs
-    let (s, replies, e) := serveChunks (scriptStep script) scriptClose (0, 0) cs
-    pure s!"acted={s.1} replies={showNats replies} closed={s.2} end={showEnd e}"
+  | "srv" :: rest => serveAll rest
   | _ => none
 
 end Cpppo.Driver.Framing
